@@ -473,13 +473,18 @@ func c13RunKrn(t *testing.T, stats *VStats) {
 				bpfs[1] = &bpfObjects{bpfMaps: bpfMaps{ConnStateMap: maps[1]}}
 			}
 			cores := []*controlPlaneCore{c13KrnCore(bpfs[0]), c13KrnCore(bpfs[1])}
+			closedCore, lateUse := -1, false
 			own := []map[int]int{{}, {}} // harness-side count of holders per core (to generate disciplined releases)
 			if shared {
 				own[1] = own[0]
 			}
 			digest := func() string {
 				part := func(c int) string {
-					x := &c13Trk{t: cores[c].getUdpConnStateTracker()}
+					src := c
+					if c == closedCore {
+						src = 1 - c // (shared: the same tracker; do not re-acquire through the closed core)
+					}
+					x := &c13Trk{t: cores[src].getUdpConnStateTracker()}
 					if shared || c == c13KrnBlockedCore {
 						x.blocked.Store(int32(c13KrnBlocked))
 					}
@@ -498,6 +503,19 @@ func c13RunKrn(t *testing.T, stats *VStats) {
 			nops := 5 + r.Intn(30)
 			for i := 0; i < nops; i++ {
 				c := r.Intn(2)
+				if shared && closedCore < 0 && i > 3 && r.Chance(0.06) {
+					// the old generation's core is closed after the hand-over; its endpoints live on and
+					// release (or even track) through it later: the shared tracker must still count them
+					closedCore = c
+					_ = cores[c].Close()
+					stats.Inc("krn.coreClose")
+					s.Emit(fmt.Sprintf("krn close %d", c), digest())
+					continue
+				}
+				if c == closedCore {
+					stats.Inc("krn.opThroughClosedCore")
+					lateUse = true
+				}
 				switch x := r.Intn(10); {
 				case x < 3:
 					k := r.Intn(nkeys)
@@ -572,6 +590,16 @@ func c13RunKrn(t *testing.T, stats *VStats) {
 			}
 			for _, c := range cores {
 				_ = c.Close()
+			}
+			if lateUse {
+				// observation (not a property clause): a use through the closed core re-acquired the shared
+				// tracker; that reference is never given back, so the registry keeps the entry of this bpf object
+				sharedUdpConnStateTrackerRegistry.mu.Lock()
+				if _, ok := sharedUdpConnStateTrackerRegistry.entries[bpfs[0]]; ok {
+					stats.Inc("krn.observation.registryEntryKeptAfterLateUse")
+					delete(sharedUdpConnStateTrackerRegistry.entries, bpfs[0])
+				}
+				sharedUdpConnStateTrackerRegistry.mu.Unlock()
 			}
 			maps[0].Close()
 			if !shared {
